@@ -14,10 +14,12 @@ from harness.common.build import InfraError
 from harness.common.shrink import ddmin
 from harness.props import c17_cases as G
 from harness.props import c17_facts
+from harness.props import c17_facts_ext
+from harness.props import c17_ext as X
 from harness.props import c17_util as U
 
 PROP = "C17"
-DRIVER_MODULES = ["PsutilModel.Model.C17Gen", "PsutilModel.Spec.C17"]
+DRIVER_MODULES = ["PsutilModel.Model.C17Gen", "PsutilModel.Spec.C17", "PsutilModel.Spec.C17Ext"]
 NEEDS_EXT = True
 TRUSTED = [
     "C17 is PARTIAL: the theorems are about a Lean model of the decoders (struct utmp layout, C-string reads, the Python filters) and of the bounds arithmetic (PSUTIL_STRNCPY, MAC formatting, affinity loop, CPU_SET, pid range, ioprio packing); memory safety of the COMPILED code is supported by differential testing of the real extension in sub-processes, in the thorough tier under clang AddressSanitizer + UBSan — testing, not proof",
@@ -39,6 +41,7 @@ MANIFEST = {
 
 def facts(snap, F):
     c17_facts.facts(snap, F)
+    c17_facts_ext.facts(snap, F, c17_facts.c_source, c17_facts.c_function, c17_facts.LINUX_C)
 
 
 # ====================================================================== entry-point formats (harness-level, from the C source)
@@ -127,8 +130,12 @@ class Run:
 
     def __init__(self, ctx, res, pkg_parent, env_extra, tag):
         self.ctx, self.res, self.tag = ctx, res, tag
-        self.pkg_parent, self.env_extra = pkg_parent, env_extra
-        self.w = U.Worker(pkg_parent, env_extra, timeout=60 if env_extra else 30)
+        # every worker runs with the shim2 preload (scripted getifaddrs / ioctl / sysinfo; inactive without a script file)
+        env = dict(env_extra or {})
+        pre = env.get("LD_PRELOAD")
+        env["LD_PRELOAD"] = (pre + ":" if pre else "") + U.build_shim2()
+        self.pkg_parent, self.env_extra = pkg_parent, env
+        self.w = U.Worker(pkg_parent, env, timeout=60 if env_extra else 30)
         self.crashes = 0
         self.crash_sites = {}
 
@@ -240,7 +247,7 @@ def canon_part_case(case):
             "root": None if case["root"] is None else case["root"].hex()}
 
 
-def compare_partitions(run, case, decoded, m_phys, m_all):
+def compare_partitions(run, case, decoded, m_phys, m_all, m_mnt=None):
     res = run.res
     inp = canon_part_case(case)
     rep = run.ask({"cmd": "partitions", "mounts": case["mounts"].hex(), "filesystems": case["filesystems"].hex(), "all": [False, True],
@@ -265,6 +272,13 @@ def compare_partitions(run, case, decoded, m_phys, m_all):
             res.disagree("spec", inp, rep["raw"] if isinstance(rep["raw"], dict) else rep["raw"][:6], want_raw[:6], want_raw[:6],
                          note="cext.disk_partitions() differs from the independent decoding of the same mounts file")
             return
+        if m_mnt is not None:
+            res.count("part:lean_getmntent")
+            if m_mnt["model"] != want_raw:
+                bad = [i for i, (a, b) in enumerate(zip(m_mnt["model"], want_raw)) if a != b][:1] or [min(len(m_mnt["model"]), len(want_raw))]
+                res.disagree("model", inp, rep["raw"][bad[0]:bad[0] + 2], m_mnt["model"][bad[0]:bad[0] + 2], want_raw[bad[0]:bad[0] + 2],
+                             note="Lean model of disk.c over getmntent (Model/C17Ext §13) differs from cext.disk_partitions() at entry %d" % bad[0])
+                return
         for key, m in (("phys", m_phys), ("all", m_all)):
             im = rep[key]
             mo, sp = m["model"], m["spec"]
@@ -403,6 +417,8 @@ def correspond(ctx, res):
         san_parent, cached = U.sanitizer_package(ctx.snap)
         builds.append(("asan+ubsan", san_parent, U.sanitizer_env()))
         res.extra["sanitizer_build_cached"] = cached
+        res.extra["sanitizer_build"] = {"cc": "clang", "cflags": U.SAN_CFLAGS, "env": {k: v for k, v in U.sanitizer_env().items()},
+                                        "extension_objects": sorted(f for f in __import__("os").listdir(__import__("os").path.join(san_parent, "psutil")) if f.endswith(".so"))}
     fmts = entry_formats(ctx.snap)
     res.extra["entry_formats"] = {"%s.%s" % k: v for k, v in sorted(fmts.items())}
     try:
@@ -447,7 +463,8 @@ def one_build(ctx, res, run, fmts, first):
             todo.append(("part", (c, None), None))
         else:
             pl = part_lines(c, dec)
-            todo.append(("part", (c, dec), (add(pl[0]), add(pl[1]))))
+            mi = add(X.mnt_line_for(c["mounts"])) if len(c["mounts"]) <= MNT_MODEL_MAX else None
+            todo.append(("part", (c, dec), (add(pl[0]), add(pl[1]), mi)))
     # ---------------------------------------------------------------- grids (exhaustive)
     cls, val, pid = grids()
     child = {"t": "pid", "v": "child"}
@@ -482,6 +499,22 @@ def one_build(ctx, res, run, fmts, first):
     needs = [None, 1, 64, 65, 128, 129, 1024, 4096, 2**20] + ([2**27, 2**30] if ctx.tier == "thorough" else [])
     for nd in needs:
         todo.append(("affget", nd, add({"op": "affget", "need": nd})))
+    # ---------------------------------------------------------------- extension round: scripted OS answers on the real entry points
+    for i in range(ctx.n(210, 2100)):
+        c = X.gen_ifaddrs_case(rng, X.IF_FAMILIES[i % len(X.IF_FAMILIES)])
+        todo.append(("ifaddrs", (c, rng.choice(X.ERRNOS)), add(X.ifaddrs_line(c))))
+    for _ in range(ctx.n(160, 1600)):
+        c = X.gen_ifr_case(rng)
+        ls = X.ifr_lines(c)
+        todo.append(("ifr", c, (add(ls[0]), add(ls[1]))))
+    for _ in range(ctx.n(120, 1200)):
+        c = X.gen_sysinfo_case(rng)
+        todo.append(("sysinfo", c, add({"op": "sysinfo", "vals": c["vals"]})))
+    for c in X.getprio_grid():
+        todo.append(("getprio", c, add(X.getprio_line(c))))
+    for _ in range(ctx.n(120, 1200)):
+        e = X.gen_mnt_entry(rng)
+        todo.append(("mntrt", e, add({"op": "mntrt", "mnt": [b.hex() for b in e]})))
     # ---------------------------------------------------------------- argument fuzzer
     eps = run.ask({"cmd": "entrypoints"}, {"kind": "entrypoints"}) or {}
     names = [(m, f) for m in ("linux", "posix") for f in eps.get(m, [])]
@@ -494,6 +527,7 @@ def one_build(ctx, res, run, fmts, first):
         m, f = names[i % len(names)]
         fmt = fmts.get((m, f))
         call = G.gen_call(rng, m, f, fmt if fmt is not None else "*")
+        call["errno"] = rng.choice(X.ERRNOS)          # stale errno poisoned in right before the call
         ll = lean_for_call(call, fmt) if fmt is not None else None
         if ll is not None and "_pred" in ll:
             todo.append(("call_pred", (call, fmt, ll["_pred"]), None))
@@ -520,7 +554,17 @@ def one_build(ctx, res, run, fmts, first):
             if idx is None:
                 compare_partitions(run, c, None, None, None)
             else:
-                compare_partitions(run, c, dec, outs[idx[0]], outs[idx[1]])
+                compare_partitions(run, c, dec, outs[idx[0]], outs[idx[1]], outs[idx[2]] if idx[2] is not None else None)
+        elif kind == "ifaddrs":
+            X.compare_ifaddrs(run, payload[0], payload[1], outs[idx])
+        elif kind == "ifr":
+            X.compare_ifr(run, payload, outs[idx[0]], outs[idx[1]])
+        elif kind == "sysinfo":
+            X.compare_sysinfo(run, payload, outs[idx])
+        elif kind == "getprio":
+            X.compare_getprio(run, payload, outs[idx])
+        elif kind == "mntrt":
+            compare_mntrt(run, payload, outs[idx])
         elif kind == "call":
             compare_call(run, payload, predict_parse(fmts.get((payload["mod"], payload["fn"]), "*"), payload["args"]), outs[idx])
         elif kind == "call_fuzz":
@@ -561,6 +605,27 @@ def one_build(ctx, res, run, fmts, first):
             compare_affget(run, shim, payload, outs[idx])
     if first:
         live_netif(run, drv)
+
+
+MNT_MODEL_MAX = 40000          # mounts files up to this size also go through the Lean getmntent model
+
+
+def compare_mntrt(run, entry, m):
+    """A mount entry rendered the way the kernel prints it (Lean spec), decoded by the Lean model AND by the real extension."""
+    res = run.res
+    inp = {"kind": "mntrt", "mnt": [b.hex() for b in entry]}
+    res.case(("mntrt", tuple(entry)), nontrivial=True)
+    res.count("mntrt")
+    want = [[b.hex() for b in entry]]
+    if m["model"]["rows"] != m["spec"]["rows"]:
+        res.disagree("spec", inp, m["model"], m["model"], m["spec"], note="Lean model of getmntent does not give back the entry the line was rendered from")
+        return
+    line = bytes.fromhex(m["spec"]["line"])
+    rep = run.ask({"cmd": "partitions", "mounts": (line + b"\n").hex(), "filesystems": "", "all": [], "root": None}, inp)
+    if rep is None:
+        return
+    if rep["raw"] != want:
+        res.disagree("spec", inp, rep["raw"], m["model"]["rows"], want, note="cext.disk_partitions() does not give back the mount entry this line was rendered from")
 
 
 def compare_ionice(run, payload, m):
@@ -710,8 +775,8 @@ def _replay_case(ctx, res, inp):
                         compare_partitions(run, case, None, None, None)
                     else:
                         dec = U.getmntent_decode(case["mounts"])
-                        o = drv.batch(part_lines(case, dec))
-                        compare_partitions(run, case, dec, o[0], o[1])
+                        o = drv.batch(part_lines(case, dec) + ([X.mnt_line_for(case["mounts"])] if len(case["mounts"]) <= MNT_MODEL_MAX else []))
+                        compare_partitions(run, case, dec, o[0], o[1], o[2] if len(o) > 2 else None)
                 elif k == "call":
                     call = inp["call"]
                     fmt = fmts.get((call["mod"], call["fn"]))
@@ -737,6 +802,18 @@ def _replay_case(ctx, res, inp):
                         res.disagree("spec", inp, mo, mo, sp, note="model of the current source violates the specification of %s" % k)
                 elif k == "netif":
                     live_netif(run, drv)
+                elif k == "ifaddrs":
+                    X.replay_ifaddrs(run, drv, inp)
+                elif k == "ifr":
+                    c = dict(inp["case"], name=bytes.fromhex(inp["case"]["name"]))
+                    o = drv.batch(X.ifr_lines(c))
+                    X.compare_ifr(run, c, o[0], o[1])
+                elif k == "sysinfo":
+                    X.compare_sysinfo(run, inp, drv.batch([{"op": "sysinfo", "vals": inp["vals"]}])[0])
+                elif k == "getprio":
+                    X.compare_getprio(run, inp["case"], drv.batch([X.getprio_line(inp["case"])])[0])
+                elif k == "mntrt":
+                    compare_mntrt(run, [bytes.fromhex(x) for x in inp["mnt"]], drv.batch([{"op": "mntrt", "mnt": inp["mnt"]}])[0])
                 else:
                     return None
             finally:
